@@ -89,6 +89,44 @@ Theorem C14_dep_order_laws : cmp_laws (fun _ => True) dep_cmp.
 Proof. exact (core_laws _ _ dep_cmp_core). Qed.
 Print Assumptions C14_dep_order_laws.
 
+(* the npm resolution order is determined by the requirements themselves when no two of them
+   are shown under one name with the same development-only status: the list that comes back
+   does not depend on the order in which the requirements were given, and any ascending
+   permutation (whatever sort.Slice does beyond 12 elements) is the model's *)
+Theorem C14_requirements_order_unique : forall ds ds',
+  Forall (fun d => r_sys d = sys_npm) ds -> deps_separated ds -> Permutation ds ds' ->
+  sort_deps ds = sort_deps ds'.
+Proof. exact sort_deps_perm_unique. Qed.
+Print Assumptions C14_requirements_order_unique.
+
+Theorem C14_requirements_any_sort : forall d0 t s,
+  r_sys d0 = sys_npm -> deps_separated (d0 :: t) ->
+  Permutation s (d0 :: t) -> StronglySorted dep_le s -> s = sort_deps (d0 :: t).
+Proof. exact sort_deps_any_sort. Qed.
+Print Assumptions C14_requirements_any_sort.
+
+Theorem C14_requirements_order_insensitive : forall O var ops1 ops2 k v1 d1 v2 d2,
+  last_add ops1 k = Some (v1, d1) -> last_add ops2 k = Some (v2, d2) ->
+  Forall (fun d => r_sys d = sys_npm) d1 -> deps_separated d1 -> Permutation d1 d2 ->
+  requirements_of (run O var ops1) k = requirements_of (run O var ops2) k.
+Proof. exact requirements_order_insensitive. Qed.
+Print Assumptions C14_requirements_order_insensitive.
+
+(* requirements shown under one name (x, and b known as x) are not separated: they come back in
+   the order given (the situation of F-C18-2) *)
+Theorem C14_requirements_ties_refuted :
+  dep_cmp e_t1 e_t2 = 0%Z /\ e_t1 <> e_t2 /\
+  sort_deps [e_t1; e_t2] = [e_t1; e_t2] /\ sort_deps [e_t2; e_t1] = [e_t2; e_t1].
+Proof. exact deps_ties_witness. Qed.
+Print Assumptions C14_requirements_ties_refuted.
+
+(* foo_bar before foobar (the underscore sorts before the letters once lower-cased), the
+   development-only requirement last, from both orders *)
+Example C14_requirements_order_example :
+  deps_separated [e_d3; e_d2; e_d1] /\
+  sort_deps [e_d3; e_d2; e_d1] = [e_d1; e_d2; e_d3] /\ sort_deps [e_d2; e_d1; e_d3] = [e_d1; e_d2; e_d3].
+Proof. exact deps_order_example. Qed.
+
 (* listing a package returns each added (non-deleted) version once ... *)
 Theorem C14_versions_once : forall O var ops p vs, v_add var <> Current ->
   versions_of (run O var ops) p = Ok vs ->
